@@ -47,7 +47,7 @@ def rand_line(rng, adversarial=0.5, maxwords=5, pipe=True):
 
 STYLES = [(True, False, False, None), (False, True, False, None), (False, False, True, None),
           (True, True, False, None), (True, True, True, None), (False, False, False, "red"),
-          (True, False, False, "#00ff00")]
+          (True, False, False, "#00ff00"), (False, False, False, "r&d"), (True, False, False, 'a"b<c&d')]
 
 
 def rand_caption_nodes(rng, adversarial=0.5, pipe=True, styles=0.3, max_lines=4, edge_breaks=0.08,
